@@ -21,8 +21,9 @@ shifted or copied), but form the END iterators of the `col` and `val` ranges wit
     make_iterator_range(col_c, col_c + ptr[n])      -- ptr[n] = nnz + 1 : the end is one element PAST one-past-the-end
     make_iterator_range(val,   val   + ptr[n])
 
-A `View` records the caller's three arrays, the amount `shift ∈ {0,1}` subtracted by the transform iterators
-and the three end offsets.  Every dereference is a bounds-checked read (`Option`): `none` = the C++ code would
+A `View` records the caller's three arrays, the amounts `pshift`, `cshift ∈ {0,1}` subtracted by the transform
+iterators over `ptr` and over `col` (two separate lambdas in the source, hence two fields: the translator
+`tools/capi_extract.py` extracts them separately, `Model/CApiTable.lean`) and the three end offsets.  Every dereference is a bounds-checked read (`Option`): `none` = the C++ code would
 read outside the caller's array.  The rows are those seen through `backend::row_begin` / `row_iterator`
 (adapter/crs_tuple.hpp:101-149), consumed by the two passes of the generic `crs` constructor
 (backend/builtin.hpp:120-151) and by the generic `spmv` / `residual` (backend/detail/matrix_ops.hpp:47-113)
@@ -54,12 +55,13 @@ def rd {α : Type} (a : Array α) (i : Int) : Option α :=
   if 0 ≤ i then a[i.toNat]? else none
 
 /-- `std::tuple<int, iterator_range<P>, iterator_range<C>, iterator_range<const double*>>` over the caller's
-arrays: `shift` is what the transform iterators of the `_f` entry points subtract at every dereference of `ptr`
-and `col` (`0` for the plain pointers of the C entry points); `ptrEnd/colEnd/valEnd` are the offsets of the end
-iterators as the code forms them. -/
+arrays: `pshift` / `cshift` is what the transform iterator `ptr_c` / `col_c` of the `_f` entry points subtracts at
+every dereference of `ptr` / `col` (`0` for the plain pointers of the C entry points); `ptrEnd/colEnd/valEnd` are
+the offsets of the end iterators as the code forms them. -/
 structure View (K : Type) where
   n      : Nat
-  shift  : Int
+  pshift : Int
+  cshift : Int
   ptr    : Array Int
   col    : Array Int
   val    : Array K
@@ -74,13 +76,13 @@ variable {K : Type}
 The only dereference is the **raw** `ptr[n]` (evaluated for the `col` and the `val` end iterator). -/
 def mkView (shift : Int) (n : Nat) (ptr col : Array Int) (val : Array K) : Option (View K) := do
   let pn ← rd ptr n
-  pure { n := n, shift := shift, ptr := ptr, col := col, val := val,
+  pure { n := n, pshift := shift, cshift := shift, ptr := ptr, col := col, val := val,
          ptrEnd := n + 1, colEnd := pn, valEnd := pn }
 
 /-- `std::get<1>(A)[i]` : `*(begin + i)`, the transform is applied to the value read -/
-def View.ptrAt (v : View K) (i : Int) : Option Int := (rd v.ptr i).map (· - v.shift)
+def View.ptrAt (v : View K) (i : Int) : Option Int := (rd v.ptr i).map (· - v.pshift)
 /-- `*m_col` with `m_col = std::begin(std::get<2>(A)) + j` -/
-def View.colAt (v : View K) (j : Int) : Option Int := (rd v.col j).map (· - v.shift)
+def View.colAt (v : View K) (j : Int) : Option Int := (rd v.col j).map (· - v.cshift)
 /-- `*m_val` with `m_val = std::begin(std::get<3>(A)) + j` -/
 def View.valAt (v : View K) (j : Int) : Option K := rd v.val j
 
